@@ -1,5 +1,6 @@
 """C20 — back-end independence (DESIGN.md §3 C20; narrow: sibling agreement of the two crypto back ends and the two object stores)."""
 import re
+import os
 from engine.rulelib import *
 from engine import tables
 from rules import c10
@@ -290,7 +291,7 @@ def r6_token_flags(ctx, pdb):
 
 def r9_attribute_iteration(ctx, pdb):
     """C_CopyObject walks the source with OSObject::nextAttributeType(); every store must implement the walk: the answer has to depend on the argument and on what is stored."""
-    r = ctx.rule('C20.R9', 'every OSObject implementation implements the attribute iteration C_CopyObject relies on (no constant stub)', floor=3, engine='E7')
+    r = ctx.rule('C20.R9', 'every OSObject implementation implements the attribute iteration C_CopyObject relies on (no constant stub); cached NULL entries are never the answer', floor=5, engine='E7 + E2')
     for cls in sorted(c for c in pdb.subclasses('OSObject') if pdb.fns(c + '::nextAttributeType')):
         f = pdb.fn(cls + '::nextAttributeType')
         ctx.analysed(f)
@@ -304,6 +305,162 @@ def r9_attribute_iteration(ctx, pdb):
                         % ('ignores its argument' if not uses_arg else 'returns constants only', cls), file=f['file'], line=f['line'])
         else:
             r.ok(cls, site, 'answer computed from the argument and the stored attributes', file=f['file'], line=f['line'])
+        # in-memory attribute caches keep NULL entries for attributes that were probed and do not exist: the walk must never answer with such an entry (C_CopyObject would ask for
+        # an attribute the object does not have and fail)
+        def rtrig(s_, st):
+            c = canon(s_['e'], st.env) if s_.get('e') is not None else ''
+            m = re.fullmatch(r'operator->\((.*)\)\.first', c)
+            return ('entry', m.group(1)) if m else None
+        sf = SiteFacts(f, pdb, return_trigger=rtrig, track_facts=r'second|operator==')
+        sf.LOOP_ROUNDS = 2
+        sf.go()
+        r.paths += sf.paths_returned
+        for (_, x), hits in sorted(sf.sites.items()):
+            site2 = '%s::nextAttributeType answers only with entries that hold an attribute' % cls
+            bad = [h for h in hits if ('operator->(%s).second' % x, True) not in h['facts']]
+            if bad:
+                r.violation(cls, site2, 'the key of a cache entry is returned (line %s) on a path where nothing says the entry holds an attribute (absent attributes are cached as NULL entries; only one of them, or none, is skipped): C_CopyObject then asks for an attribute the object does not have and fails'
+                            % bad[0]['line'], file=f['file'], line=bad[0]['line'], path=bad[0]['path'])
+            else:
+                r.ok(cls, site2, '%d returning states, each after the entry was seen non-NULL' % len(hits), file=f['file'], line=hits[0]['line'])
+
+
+def r10_round_up(ctx, configs, rule_id='C20.R10'):
+    """A buffer that has to hold a value of n bits needs ceil(n/8) bytes.  Wherever a back end sizes a buffer (resize / wipe) from a bit count divided by 8, the division has to round up:
+    with n/8 a 521-bit field element loses its top byte under OpenSSL while Botan returns all 66 bytes."""
+    r = ctx.rule(rule_id, 'byte sizes computed from a bit count round up when they size a buffer', floor=1, engine='E2 value following')
+    for cname, prog in configs:
+        for f in sorted(prog.functions.values(), key=lambda g: (g['file'], g['line'])):
+            inits = {}
+            for n in walk(f['body']):
+                if n.get('k') == 'Decl':
+                    for d in n['decls']:
+                        if d.get('init'):
+                            inits.setdefault(d['var']['name'], []).append(d['init'])
+                if n.get('k') == 'Assign' and n['a'].get('k') == 'Var':
+                    inits.setdefault(n['a']['name'], []).append(n['b'])
+            for c in calls(f['body']):
+                if short(c.get('callee')) not in ('resize', 'wipe') or not c.get('args') or c['args'][0] is None:
+                    continue
+                a = c['args'][0]
+                exprs = [a] + [i for x in walk(a) if x.get('k') == 'Var' for i in inits.get(x['name'], [])]
+                for e in exprs:
+                    for n in walk(e):
+                        if n.get('k') == 'Bin' and n['op'] == '/' and n['b'].get('k') == 'Lit' and n['b']['v'] == 8 and any(x.get('k') == 'Call' for x in walk(n['a'])):
+                            ctx.analysed(f)
+                            up = any(x.get('k') == 'Bin' and x['op'] == '+' and any(y.get('k') == 'Lit' and y['v'] == 7 for y in (x['a'], x['b'])) for x in walk(n['a']))
+                            site = '%s: %s@%d' % (cname, short(c['callee']), c['l'])
+                            if up:
+                                r.ok(f['qname'], site, canon(n), file=f['file'], line=c['l'])
+                            else:
+                                r.violation(f['qname'], site, 'the buffer is sized with %s, which rounds down: a value whose bit length is not a multiple of 8 (P-521: 521 bits) is cut by one byte, the result differs from the other back end' % canon(n),
+                                            file=f['file'], line=c['l'])
+
+
+OSSL_POS = {  # OpenSSL 1.1 accessor signatures (man RSA_get0_key, DSA_get0_pqg, DH_get0_pqg): component delivered / expected at each argument position after the object
+    'RSA_get0_factors': ['p', 'q'], 'RSA_get0_crt_params': ['dmp1', 'dmq1', 'iqmp'], 'RSA_get0_key': ['n', 'e', 'd'],
+    'RSA_set0_factors': ['p', 'q'], 'RSA_set0_crt_params': ['dmp1', 'dmq1', 'iqmp'], 'RSA_set0_key': ['n', 'e', 'd'],
+    'DSA_get0_pqg': ['p', 'q', 'g'], 'DSA_get0_key': ['pub', 'priv'], 'DSA_set0_pqg': ['p', 'q', 'g'], 'DSA_set0_key': ['pub', 'priv'],
+    'DH_get0_pqg': ['p', 'q', 'g'], 'DH_get0_key': ['pub', 'priv'], 'DH_set0_pqg': ['p', 'q', 'g'], 'DH_set0_key': ['pub', 'priv']}
+COMP_SETTER = {'RSA': {'p': 'setP', 'q': 'setQ', 'dmp1': 'setDP1', 'dmq1': 'setDQ1', 'iqmp': 'setPQ', 'n': 'setN', 'e': 'setE', 'd': 'setD'},
+               'DSA': {'p': 'setP', 'q': 'setQ', 'g': 'setG', 'pub': 'setY', 'priv': 'setX'},
+               'DH': {'p': 'setP', 'g': 'setG', 'pub': 'setY', 'priv': 'setX'}}
+BOTAN_ACC = {'get_p': 'setP', 'get_q': 'setQ', 'get_d1': 'setDP1', 'get_d2': 'setDQ1', 'get_c': 'setPQ', 'get_n': 'setN', 'get_e': 'setE', 'get_d': 'setD'}
+
+
+def r11_component_order(ctx, po, pb):
+    """The back-end key classes hand key components to / take them from the crypto library by POSITION (OpenSSL get0/set0 functions) or by accessor name (Botan).  Each component must
+    reach the setter - and come from the field - of the same component: two swapped positions that cancel inside one back end still store, export and wrap the wrong CKA_EXPONENT_1/2."""
+    r = ctx.rule('C20.R11', 'key components keep their meaning across the crypto library boundary (positional get0/set0 arguments, Botan accessors)', floor=30, engine='E2 value following against the library signatures')
+
+    def setter_fields(prog):
+        out = {}
+        for g in prog.functions.values():
+            if re.fullmatch(r'set[A-Z]\w*', short(g['qname'])) and g.get('class') and len(g['params']) == 1:
+                for n in walk(g['body']):
+                    tgt = n['a'] if n.get('k') == 'Assign' else (n.get('recv') if n.get('k') == 'Call' and short(n.get('callee')) == 'operator=' else None)
+                    if tgt is not None and tgt.get('k') == 'Member' and tgt['base'].get('k') == 'This':
+                        out.setdefault((g['class'], short(g['qname'])), tgt['field'])
+                        break
+        return out
+    sf_ = setter_fields(po)
+    for f in sorted(po.functions.values(), key=lambda g: (g['file'], g['line'])):
+        cls = f.get('class') or ''
+        if not cls.startswith('OSSL'):
+            continue
+        inits = {}
+        for n in walk(f['body']):
+            if n.get('k') == 'Decl':
+                for d in n['decls']:
+                    if d.get('init'):
+                        inits[d['var']['name']] = d['init']
+        def vars_of(e, depth=0):
+            vs = {x['name'] for x in walk(e) if x.get('k') == 'Var'}
+            if depth < 2:
+                for v in list(vs):
+                    if v in inits:
+                        vs |= vars_of(inits[v], depth + 1)
+            return vs
+        def fields_of(e, depth=0):
+            fs = {x['field'] for x in walk(e) if x.get('k') == 'Member' and x['base'].get('k') == 'This'} | {x['name'] for x in walk(e) if x.get('k') == 'Var' and x.get('kind') == 'field'}
+            if depth < 2:
+                for x in walk(e):
+                    if x.get('k') == 'Var' and x['name'] in inits:
+                        fs |= fields_of(inits[x['name']], depth + 1)
+            return fs
+        setters = [c for c in calls(f['body']) if re.fullmatch(r'set[A-Z]\w*', short(c.get('callee')) or '') and c.get('args') and c['args'][0] is not None and (c.get('recv') is None or c['recv'].get('k') == 'This')]
+        for c in calls(f['body']):
+            name = short(c.get('callee')) or ''
+            if name not in OSSL_POS:
+                continue
+            ctx.analysed(f)
+            fam = name.split('_')[0]
+            for k, comp in enumerate(OSSL_POS[name]):
+                if k + 1 >= len(c.get('args', [])) or c['args'][k + 1] is None or comp not in COMP_SETTER[fam]:
+                    continue
+                a = c['args'][k + 1]
+                want = COMP_SETTER[fam][comp]
+                site = '%s argument %d (%s)' % (name, k + 1, comp)
+                if '_get0_' in name:
+                    v = a['e']['name'] if a.get('k') == 'Un' and a.get('op') == '&' and a['e'].get('k') == 'Var' else None
+                    if v is None:
+                        continue        # NULL: component not requested
+                    got = sorted({short(s_['callee']) for s_ in setters if v in vars_of(s_['args'][0])})
+                    if not got:
+                        continue
+                    if got != [want]:
+                        r.violation(f['qname'], site, 'OpenSSL delivers %s in this position; the variable %s it is stored in ends up in %s instead of %s()' % (comp, v, '/'.join(got), want), file=f['file'], line=c['l'])
+                    else:
+                        r.ok(f['qname'], site, '%s -> %s' % (v, want), file=f['file'], line=c['l'])
+                else:
+                    fs = fields_of(a)
+                    base = [fl for (cl, st_), fl in sf_.items() if st_ == want and cl in po.superclasses(cls) | {cls}] if hasattr(po, 'superclasses') else [fl for (cl, st_), fl in sf_.items() if st_ == want and cl.startswith(fam)]
+                    if not fs or not base:
+                        continue
+                    if not (fs & set(base)):
+                        r.violation(f['qname'], site, 'OpenSSL expects %s in this position; it is given a value built from the field %s, while %s() stores that component in %s' % (comp, '/'.join(sorted(fs)), want, '/'.join(sorted(set(base)))), file=f['file'], line=c['l'])
+                    else:
+                        r.ok(f['qname'], site, '%s <- %s' % (comp, '/'.join(sorted(fs & set(base)))), file=f['file'], line=c['l'])
+    for f in sorted(pb.functions.values(), key=lambda g: (g['file'], g['line'])):
+        cls = f.get('class') or ''
+        if not cls.startswith('BotanRSA'):
+            continue
+        inits = {d['var']['name']: d['init'] for n in walk(f['body']) if n.get('k') == 'Decl' for d in n['decls'] if d.get('init')}
+        for c in calls(f['body']):
+            sn = short(c.get('callee')) or ''
+            if not re.fullmatch(r'set[A-Z]\w*', sn) or not c.get('args') or c['args'][0] is None or not (c.get('recv') is None or c['recv'].get('k') == 'This'):
+                continue
+            e = c['args'][0]
+            es = [e] + [inits[x['name']] for x in walk(e) if x.get('k') == 'Var' and x['name'] in inits]
+            acc = sorted({short(x['callee']) for ee in es for x in walk(ee) if x.get('k') == 'Call' and short(x.get('callee')) in BOTAN_ACC})
+            if not acc:
+                continue
+            ctx.analysed(f)
+            site = 'Botan accessor feeding %s' % sn
+            if [BOTAN_ACC[a_] for a_ in acc] != [sn]:
+                r.violation(f['qname'], site, '%s() is fed from Botan\'s %s(), which is the component of %s()' % (sn, acc[0], BOTAN_ACC[acc[0]]), file=f['file'], line=c['l'])
+            else:
+                r.ok(f['qname'], site, acc[0], file=f['file'], line=c['l'])
 
 
 def run(ctx):
@@ -320,9 +477,15 @@ def run(ctx):
     c05.r1d_map_accounting(ctx, po, rule_id='C20.R8')
     r6_token_flags(ctx, pdb)
     r9_attribute_iteration(ctx, pdb)
+    r10_round_up(ctx, [('ossl-file', po), ('botan-file', pb)])
+    r11_component_order(ctx, po, pb)
 
 
 MUTANTS = [
+    dict(name='botan-rsa-crt-exponents-swapped', rule='C20.R11', config='botan-file', file='src/lib/crypto/BotanRSAPrivateKey.cpp', after='void BotanRSAPrivateKey::setFromBotan(',
+         old='ByteString inDP1 = BotanUtil::bigInt2ByteString(inRSA->get_d1());', new='ByteString inDP1 = BotanUtil::bigInt2ByteString(inRSA->get_d2());'),
+    dict(name='bn2bytestring-rounds-down', rule='C20.R10', file='src/lib/crypto/OSSLUtil.cpp', after='ByteString OSSL::bn2ByteString(',
+         old='rv.resize(BN_num_bytes(bn));', new='rv.resize(BN_num_bits(bn) / 8);'),
     dict(name='dbobject-nextattributetype-stub', rule='C20.R9', config='ossl-db', file='src/lib/object_store/DBObject.cpp', after='CK_ATTRIBUTE_TYPE DBObject::nextAttributeType(',
          old='\treturn result.getULongLong(1);', new='\t(void) type;\n\treturn CKA_CLASS;'),
     dict(name='botan-rsa-drops-sha512-pss', rule='C20.R1', config='botan-file', file='src/lib/crypto/BotanRSA.cpp', after='bool BotanRSA::signInit(',
